@@ -433,6 +433,162 @@ fn run_core(hs: &[(u64, Cmd)], rng: &mut Rng, names: &[u64], nsteps: usize, fixe
     (acts, obs)
 }
 
+
+// ---------------------------------------------------------------- C05: one command, many hosts
+// Every host is driven by the same list of shell inputs (resolve / drop / abort), and is inspected
+// after each input: (effects, events, done?).  Hosts: direct, wrappers through the public combinators,
+// a hand-polled Stream, and a real Core.
+type HStep = (Vec<(u64, u64, Vec<u64>)>, Vec<Ev>, Option<bool>);
+trait Host {
+    fn input(&mut self, a: &Action);
+    fn inspect(&mut self) -> HStep;
+    fn held(&self) -> &Vec<Held>;
+}
+fn apply_input(held: &mut Vec<Held>, aborts: &Aborts, a: &Action) -> Option<u64> {
+    match a {
+        Action::Resolve(t, v, o, out) => match find(held, *t, *v, *o) {
+            Some(i) if held[i].req.is_some() => Some(rcode(held[i].req.as_mut().unwrap().resolve(*out))),
+            _ => Some(3),
+        },
+        Action::DropReq(t, v, o) => { if let Some(i) = find(held, *t, *v, *o) { held[i].req = None; } None }
+        Action::Abort(n) => { for (m, h) in aborts.lock().unwrap().iter() { if m == n { h(); } } None }
+        _ => None,
+    }
+}
+fn take_effs(effs: Vec<Eff>, held: &mut Vec<Held>) -> Vec<(u64, u64, Vec<u64>)> {
+    let mut out = vec![];
+    for e in effs { let (maps, r) = e.split(); out.push((r.operation.tag, r.operation.val, maps)); held.push(Held { tag: r.operation.tag, val: r.operation.val, req: Some(r) }); }
+    out
+}
+struct DirectHost { cmd: C, held: Vec<Held>, aborts: Aborts }
+impl Host for DirectHost {
+    fn input(&mut self, a: &Action) { apply_input(&mut self.held, &self.aborts, a); }
+    fn inspect(&mut self) -> HStep {
+        let es: Vec<Eff> = self.cmd.effects().collect(); let effs = take_effs(es, &mut self.held);
+        let evs: Vec<Ev> = self.cmd.events().collect();
+        // a wrapper forwards outputs lazily: effects()/events() each settle, so take both until stable
+        let es2: Vec<Eff> = self.cmd.effects().collect(); let mut effs = effs; effs.extend(take_effs(es2, &mut self.held));
+        let d = self.cmd.is_done();
+        (effs, evs, Some(d))
+    }
+    fn held(&self) -> &Vec<Held> { &self.held }
+}
+struct StreamHost { cmd: Option<C>, held: Vec<Held>, aborts: Aborts, ended: bool }
+impl Host for StreamHost {
+    fn input(&mut self, a: &Action) { apply_input(&mut self.held, &self.aborts, a); }
+    fn inspect(&mut self) -> HStep {
+        let waker = futures::task::noop_waker(); let mut cx = Context::from_waker(&waker);
+        let (mut effs, mut evs) = (vec![], vec![]);
+        if let Some(cmd) = self.cmd.as_mut() {
+            loop {
+                match cmd.poll_next_unpin(&mut cx) {
+                    Poll::Ready(Some(crux_core::command::CommandOutput::Effect(e))) => effs.extend(take_effs(vec![e], &mut self.held)),
+                    Poll::Ready(Some(crux_core::command::CommandOutput::Event(e))) => evs.push(e),
+                    Poll::Ready(None) => { self.ended = true; break; }
+                    Poll::Pending => break,
+                }
+            }
+        }
+        if self.ended { self.cmd = None; }
+        (effs, evs, Some(self.ended))
+    }
+    fn held(&self) -> &Vec<Held> { &self.held }
+}
+struct CoreHost { core: Core<TheApp>, held: Vec<Held>, aborts: Aborts, seen: usize, pending: Vec<Eff> }
+impl Host for CoreHost {
+    fn input(&mut self, a: &Action) {
+        match a {
+            Action::Resolve(t, v, o, out) => if let Some(i) = find(&self.held, *t, *v, *o) { if self.held[i].req.is_some() {
+                if let Ok(es) = self.core.resolve(self.held[i].req.as_mut().unwrap(), *out) { self.pending.extend(es); } } },
+            _ => { apply_input(&mut self.held, &self.aborts, a); }
+        }
+    }
+    fn inspect(&mut self) -> HStep {
+        // a probe makes the consequences of a drop / abort visible; after a resolve it must add nothing
+        let es = self.core.process_event(Ev { tag: 99, val: 0, maps: vec![] });
+        let mut all: Vec<Eff> = std::mem::take(&mut self.pending); all.extend(es);
+        let effs = take_effs(all, &mut self.held);
+        let log = self.core.view();
+        let evs: Vec<Ev> = log[self.seen..].iter().filter(|e| !(e.tag == 99 && e.maps.is_empty()) ).cloned().collect();
+        self.seen = log.len();
+        (effs, evs, None)
+    }
+    fn held(&self) -> &Vec<Held> { &self.held }
+}
+fn hstep_coq(h: &HStep) -> String {
+    format!("({}, {}, {})", coq_list(h.0.iter().map(|(t, v, m)| format!("mkOE {} {} [{}] KNever", t, v, m.iter().map(|x| x.to_string()).collect::<Vec<_>>().join("; "))).collect()),
+            oevs(&h.1), match h.2 { Some(true) => "Some true", Some(false) => "Some false", None => "None" })
+}
+fn wrappers(c: &Cmd) -> Vec<(&'static str, Cmd)> {
+    let done = || Cmd::New(Task::Ret, vec![]);
+    vec![
+        ("direct", c.clone()),
+        ("map_effect_id", Cmd::IdEff(Box::new(c.clone()))),
+        ("map_event_id", Cmd::IdEv(Box::new(c.clone()))),
+        ("then_done_c", Cmd::Then(Box::new(done()), Box::new(c.clone()))),
+        ("then_c_done", Cmd::Then(Box::new(c.clone()), Box::new(done()))),
+        ("all_one", Cmd::All(vec![c.clone()])),
+        ("into", Cmd::Into(Box::new(c.clone()))),
+        ("and_done_c", Cmd::And(Box::new(done()), Box::new(c.clone()))),
+        ("depth3", Cmd::All(vec![Cmd::Then(Box::new(done()), Box::new(Cmd::IdEv(Box::new(c.clone()))))])),
+        ("depth5", Cmd::Into(Box::new(Cmd::All(vec![Cmd::Then(Box::new(Cmd::IdEff(Box::new(c.clone()))), Box::new(done()))])))),
+    ]
+}
+fn run_hosts(idx: usize, seed: u64, g: &mut Gen, depth: u32, nsteps: usize) -> String {
+    let c = g.cmd(depth, 0);
+    let names = g.names.clone();
+    let mut rng = g.rng.clone();
+    // 1. choose the inputs while driving the direct host
+    let aborts: Aborts = Default::default();
+    let mut h0 = DirectHost { cmd: build(&c, &Env::default(), &aborts), held: vec![], aborts };
+    let mut inputs: Vec<Action> = vec![];
+    let mut t0: Vec<HStep> = vec![h0.inspect()];
+    for _ in 0..nsteps {
+        let a = loop { let a = pick_action(&mut rng, h0.held(), &names, false, &[]); if matches!(a, Action::Resolve(..) | Action::DropReq(..) | Action::Abort(_)) { break a; }
+                       if h0.held().is_empty() && names.is_empty() { break Action::Resolve(77, 0, 0, 1); } };
+        h0.input(&a); inputs.push(a); t0.push(h0.inspect());
+    }
+    // 2. replay on every other host
+    let mut traces: Vec<(String, Vec<HStep>)> = vec![("direct".into(), t0)];
+    for (name, w) in wrappers(&c).into_iter().skip(1) {
+        let aborts: Aborts = Default::default();
+        let mut h = DirectHost { cmd: build(&w, &Env::default(), &aborts), held: vec![], aborts };
+        let mut t = vec![h.inspect()];
+        for a in &inputs { h.input(a); t.push(h.inspect()); }
+        traces.push((name.into(), t));
+    }
+    {
+        let aborts: Aborts = Default::default();
+        let mut h = StreamHost { cmd: Some(build(&c, &Env::default(), &aborts)), held: vec![], aborts, ended: false };
+        let mut t = vec![h.inspect()];
+        for a in &inputs { h.input(a); t.push(h.inspect()); }
+        traces.push(("stream".into(), t));
+    }
+    {
+        *HANDLERS.lock().unwrap() = vec![(1, c.clone())];
+        let aborts: Aborts = Default::default();
+        *ABORTS.lock().unwrap() = Some(aborts.clone());
+        let core: Core<TheApp> = Core::new();
+        let first = core.process_event(Ev { tag: 1, val: 0, maps: vec![] });
+        let mut h = CoreHost { core, held: vec![], aborts, seen: 1, pending: first };
+        let mut t = vec![h.inspect()];
+        for a in &inputs { h.input(a); t.push(h.inspect()); }
+        traces.push(("core".into(), t));
+    }
+    // the direct trace as a schedule of the model: [AEffects; AEvents; AEffects; AIsDone] after every input
+    let mut acts: Vec<Action> = vec![];
+    let push_inspect = |acts: &mut Vec<Action>| { acts.push(Action::Effects); acts.push(Action::Events); acts.push(Action::Effects); acts.push(Action::IsDone); };
+    push_inspect(&mut acts);
+    for a in &inputs { acts.push(a.clone()); push_inspect(&mut acts); }
+    let mut h = HashMap::new(); c.hist(&mut h);
+    let mut ah: HashMap<&str, u64> = HashMap::new(); for a in &inputs { *ah.entry(a.name()).or_default() += 1; }
+    format!("{{\"idx\":{},\"seed\":{},\"mode\":\"hosts\",\"prog\":{},\"inputs\":{},\"acts\":{},\"hosts\":[{}],\"traces\":{},\"size\":{},\"depth\":{},\"hist\":{:?},\"ahist\":{:?}}}",
+        idx, seed, json_str(&c.coq()), json_str(&coq_list(inputs.iter().map(|a| a.coq()).collect())), json_str(&coq_list(acts.iter().map(|a| a.coq()).collect())),
+        traces.iter().map(|(n, _)| json_str(n)).collect::<Vec<_>>().join(","),
+        json_str(&coq_list(traces.iter().map(|(_, t)| coq_list(t.iter().map(hstep_coq).collect())).collect())),
+        c.size(), c.depth(), h, ah)
+}
+
 fn json_str(s: &str) -> String { format!("\"{}\"", s.replace('\\', "\\\\").replace('"', "\\\"")) }
 
 fn main() {
@@ -441,6 +597,7 @@ fn main() {
     let seed: u64 = args.get(1).and_then(|s| s.parse().ok()).unwrap_or(1);
     let count: usize = args.get(2).and_then(|s| s.parse().ok()).unwrap_or(100);
     let only: Option<usize> = args.get(3).and_then(|s| s.parse().ok());
+    let mode: String = args.get(4).cloned().unwrap_or_else(|| "mix".into());
     for idx in 0..count {
         // one independent generator state per case so that a single case can be regenerated
         let mut g = Gen { rng: Rng::new(seed.wrapping_mul(1_000_003).wrapping_add(idx as u64)), next_tag: 0, next_name: 0, names: vec![], ev_tags: vec![] };
@@ -448,6 +605,14 @@ fn main() {
         let depth = match g.rng.below(10) { 0..=2 => 0, 3..=5 => 1, 6..=7 => 2, 8 => 3, _ => 4 };
         let nsteps = 4 + g.rng.below(14) as usize;
         if only.is_some() && only != Some(idx) { continue; }
+        if mode == "hosts" {
+            g.ev_tags = vec![];
+            match std::panic::catch_unwind(std::panic::AssertUnwindSafe(|| run_hosts(idx, seed, &mut g, depth.min(3), nsteps.min(10)))) {
+                Ok(l) => println!("{}", l),
+                Err(_) => println!("{{\"idx\":{},\"seed\":{},\"mode\":\"hosts\",\"panic\":true}}", idx, seed),
+            }
+            continue;
+        }
         let line = std::panic::catch_unwind(std::panic::AssertUnwindSafe(|| if !core_host {
             let c = g.cmd(depth, 0);
             let names = g.names.clone();
